@@ -244,6 +244,16 @@ inductive Op where
   | mark (i : Nat) (text : List Char)  -- `MarkTag.set_value(text, t)`
 deriving Repr, DecidableEq
 
+/-- Python `==` between two tag values as far as the harness produces them (`2 == 2.0`). -/
+def pyEq : Val → Val → Bool
+  | .none, .none => true
+  | .flt a, .flt b => a == b
+  | .int a, .int b => a == b
+  | .flt a, .int b => a == 32 * b
+  | .int a, .flt b => 32 * a == b
+  | .str a, .str b => a == b
+  | _, _ => false
+
 def markSep : List Char := "; ".toList
 
 def updTag (tags : List Tag) (i : Nat) (f : Tag → Tag) : List Tag :=
@@ -276,8 +286,10 @@ def stepOp (s : State) : Op → State
       | .ok txt => { s with tags := tags', file := s.file ++ txt, log := s.log ++ [r] }
       | .error _ => { s with tags := tags' }    -- logged, nothing written
     else s
-  | .set i v => { s with tags := updTag s.tags i (fun t => { t with value := v }) }
-  | .sim i v => { s with tags := updTag s.tags i (fun t => { t with simulated := true, simValue := v }) }
+  -- `Tag.set_value` / `simulate_value` assign only `if val != self.value` (so `2.0` does not replace `2`)
+  | .set i v => { s with tags := updTag s.tags i (fun t => if pyEq v t.value then t else { t with value := v }) }
+  | .sim i v => { s with tags := updTag s.tags i (fun t =>
+      if pyEq v t.simValue then { t with simulated := true } else { t with simulated := true, simValue := v }) }
   | .stopSim i => { s with tags := updTag s.tags i (fun t => { t with simulated := false, simValue := .none }) }
   | .mark i text => { s with tags := updTag s.tags i (fun t => markSet t text) }
 
